@@ -53,6 +53,10 @@ pub struct Th {
     pub parks: u32,
     spinning: bool,
     forced: bool,
+    /// address of the last atomic this thread CAS-ed successfully from 0 to 1
+    last_cas: usize,
+    /// lock word currently held (0 = none)
+    holding: usize,
 }
 
 #[derive(Clone, Debug)]
@@ -407,6 +411,15 @@ impl Rt {
             }
             return;
         }
+        if kind == Pt::Yield && g.th[me].holding != 0 && g.mem.len() < 8 {
+            let st = g.stamp;
+            g.mem.push(MemViolation {
+                kind: "wait_in_cs",
+                stamp: st,
+                vid: me as u8,
+                detail: format!("thread {} yields / sleeps / spins while holding the channel lock", me),
+            });
+        }
         if kind == Pt::Yield {
             g.th[me].consec_yield += 1;
             if g.th[me].consec_yield > g.livelock_yields && g.fair {
@@ -579,6 +592,12 @@ impl Runtime for Rt {
                 }
             }
         }
+        if op == AtomicOp::Cas && success && old == 0 && new == 1 {
+            g.th[t].last_cas = addr;
+        }
+        if op == AtomicOp::Store && new == 0 && g.th[t].holding == addr {
+            g.th[t].holding = 0;
+        }
         // a store / successful RMW that changes a value is progress for livelock detection
         if success && op != AtomicOp::Load && old != new {
             for th in g.th.iter_mut() {
@@ -609,6 +628,15 @@ impl Runtime for Rt {
             let tc = g.th[me].token_clock;
             join(&mut g.th[me].c, &tc);
             return;
+        }
+        if g.th[me].holding != 0 && g.mem.len() < 8 {
+            let st = g.stamp;
+            g.mem.push(MemViolation {
+                kind: "wait_in_cs",
+                stamp: st,
+                vid: me as u8,
+                detail: format!("thread {} parks while holding the channel lock", me),
+            });
         }
         g.th[me].st = St::Parked;
         g.th[me].parks += 1;
@@ -741,6 +769,10 @@ impl Runtime for Rt {
         }
         let t = self.me() as u8;
         let mut g = lock(self);
+        if kind == verif::notes::LOCK_ACQUIRED || kind == verif::notes::TRY_LOCK_ACQUIRED {
+            let a = g.th[t as usize].last_cas;
+            g.th[t as usize].holding = a;
+        }
         g.stamp += 1;
         let stamp = g.stamp;
         g.notes.push(Note {
@@ -1033,6 +1065,8 @@ pub fn run(cfg: Config, bodies: Vec<Job>) -> Outcome {
                 parks: 0,
                 spinning: false,
                 forced: false,
+                last_cas: 0,
+                holding: 0,
             });
         }
     }
